@@ -1,0 +1,9 @@
+//go:build verif
+
+// Package mycoria: machine-checked contracts (comment-only; read by /verif/govc).
+package mycoria
+
+// After New has returned the modules every handler relies on are wired (the optional ones - tun device,
+// netstack, api, dns - may be absent on relay-only routers).
+//@ type Instance
+//@   invariant wired [C13,C20]: self.config != nil && self.identity != nil && self.frameBuilder != nil && self.state != nil && self.peering != nil && self.switchr != nil && self.router != nil
